@@ -179,7 +179,7 @@ func (C09Mon) After(w *core.World, st *core.Step) {
 		}
 		c.Oracle("C09.wt.collateral")
 		for p, b := range wt0 {
-			if sel[p] {
+			if sel[p] || sameLink(st, p) {
 				continue
 			}
 			nb, still := wt1[p]
@@ -190,7 +190,7 @@ func (C09Mon) After(w *core.World, st *core.Step) {
 			}
 		}
 		for p := range wt1 {
-			if _, was := wt0[p]; !was && !sel[p] {
+			if _, was := wt0[p]; !was && !sel[p] && !sameLink(st, p) {
 				w.Fail("C09.wt.collateral", "other-file-created", trig, "%s created %q which is not beneath any named path", st.String(), p)
 			}
 		}
@@ -324,6 +324,10 @@ func runC09(c *core.Ctx) {
 			k.keys = append(k.keys, "edit-swap")
 			sort.Strings(k.keys)
 			k.total += 6
+		}
+		if w.Hist%3 == 1 {
+			// tracked paths that have become links (symbolic or hard) to other files: restore must bring the FILE back
+			k.Enable("edit-link-over", 6)
 		}
 		k.Init()
 		for i, p := range k.Pool {
